@@ -13,6 +13,7 @@ mod c07;
 mod c08;
 mod c09;
 mod c10;
+mod c11;
 mod bessel;
 mod common;
 mod engine;
@@ -83,6 +84,7 @@ fn main() {
         "C08" => run::<c08::C08>(&args),
         "C09" => run::<c09::C09>(&args),
         "C10" => run::<c10::C10>(&args),
+        "C11" => run::<c11::C11>(&args),
         "C14" => run::<bessel::C14>(&args),
         "C15" => run::<bessel::C15>(&args),
         other => {
